@@ -121,6 +121,28 @@ def run_fi_complete(ctx):
     return res
 
 
+def run_fi_parallel_neighbour(ctx):
+    """Wall P-Q-Q' whose second edge is EXACTLY parallel to the segment (dropped by the
+    parallel filter) while the first one meets it: the crossing with P-Q is reported, once,
+    and nothing else (the filter must not disturb the other edges of its slope class)."""
+    from hypnotoad.core import equilibrium as E
+    from hypnotoad.core.equilibrium import Point2D
+
+    X = (ctx.real("XR"), ctx.real("XZ"))
+    P, Q = meeting_config(ctx, "PQ", X)
+    A, B = meeting_config(ctx, "AB", X)
+    ctx.assume(nondegenerate(P, Q, A, B))
+    lam = ctx.real("lambda")
+    ctx.assume(lam != 0)
+    Q2 = Point2D(Q.R + lam * (B.R - A.R), Q.Z + lam * (B.Z - A.Z))
+    res = E.find_intersections(wall_array([P, Q, Q2]), A, B)
+    with spec_mode():
+        ctx.oblige(TRUE(res is not None and res.shape[0] == 1), "parallel neighbour edge: exactly one crossing reported")
+        if res is not None and res.shape[0] >= 1:
+            ctx.oblige(And(res[0][0] == X[0], res[0][1] == X[1]), "parallel neighbour edge: the reported point is the meeting point with the non-parallel edge")
+    return res
+
+
 def run_fi_shared_vertex(ctx):
     """Two wall edges P-V, V-Q; the segment passes through V."""
     from hypnotoad.core import equilibrium as E
@@ -270,6 +292,7 @@ def build(S):
     with numpy_shimmed():
         S.contract("find_intersections[sound]", FN_FI, run_fi_sound, shape="one wall edge, 8 real coordinates", max_paths=3000)
         S.contract("find_intersections[complete]", FN_FI, run_fi_complete, shape="one wall edge, 8 real coordinates + meeting parameters", max_paths=3000)
+        S.contract("find_intersections[edge parallel to the segment next to a crossed edge]", FN_FI, run_fi_parallel_neighbour, expected_exceptions=(), shape="two wall edges, one exactly parallel to the segment", max_paths=6000)
         S.contract("find_intersections[shared-vertex]+wallIntersection", FN_WI, run_fi_shared_vertex, expected_exceptions=(), shape="two wall edges", max_paths=6000)
         S.contract("wallIntersection[cases]", FN_WI, run_wi_cases, shape="0..3 rows")
         S.contract("closest_approach", FN_CA, run_closest, shape="2-vectors")
